@@ -26,6 +26,7 @@ type Parser struct {
 	currentToken *Token // Current token being processed
 	peekToken    *Token // Next token (lookahead)
 	resolver     ReferenceResolver
+	lexErr       error // first error reported by the lexer, if any
 }
 
 // SetReferenceResolver sets the reference resolver for the parser.
@@ -62,6 +63,13 @@ func (p *Parser) nextToken() error {
 
 	token, err := p.lexer.NextToken()
 	if err != nil {
+		// Most callers advance without looking at the result. Remember the
+		// first tokenizer error and feed EOF from here on, so that parsing
+		// stops with an error instead of seeing the same token forever.
+		if p.lexErr == nil {
+			p.lexErr = err
+		}
+		p.peekToken = &Token{Type: TokenEOF}
 		return err
 	}
 	p.peekToken = token
@@ -93,6 +101,9 @@ func (p *Parser) ParseObject() (Object, error) {
 
 	switch p.currentToken.Type {
 	case TokenEOF:
+		if p.lexErr != nil {
+			return nil, p.lexErr
+		}
 		return nil, io.EOF
 
 	case TokenKeyword:
